@@ -312,4 +312,12 @@ example : (backtrack [] defaultFuel (.pj pjI) treeI es).toOption.map
       | .unary (.sel _) (.transfer _ _ (.select ..)) _ => true
       | _ => false)) = some true := by decide +kernel
 
+/-- non-vacuity of `join_with_every_option_sound`, the other two cases: without back-tracking but with `transfer=True`
+the join lands in the database (the target is transferred there); with neither option the call raises -/
+example : (applyOp [] defaultFuel (.pj ⟨⟨.lit true, [], none⟩, leafF, false⟩) treeI
+      { backtrack := false, transfer := true }).toOption.map (fun r => (r.get treeI).engine == es) = some true ∧
+    (applyOp [] defaultFuel (.pj ⟨⟨.lit true, [], none⟩, leafF, false⟩) treeI
+      { backtrack := false, transfer := false }).toOption.isNone = true ∧
+    transferSimplify es treeI = none := by decide +kernel
+
 end DafRel.Props.C03
